@@ -10,6 +10,10 @@ rationals and hands them to the model and to the oracle:
     Angles are irrational for evo: a threshold *hit exactly* in units is compared only when it is
     also hit exactly by the float values evo's own angle primitives produce ("realised"), which the
     generator arranges for by snapping delta onto such a float sum;
+  * float-exact angle grid (kind "fgrid"): the model gets the float angles of evo's own angle
+    primitives as exact rationals; poses are the identity or one rotation whose float angle has
+    trailing zero bits, so that evo's float running sums are exact and `>=` on a threshold hit
+    exactly is always decided; all-pairs band limits likewise;
   * random stream: float positions / rotations, rationals of float64 step lengths and angles,
     compared only when the model's smallest decision margin exceeds the float slack.
 """
@@ -111,7 +115,9 @@ def prepare(case):
             mag = max([abs(x) for p in pos for x in p] + [1e-300])
             tot = float(sum(P["steps"]))
             P["sl"] = frac((n + 8) * 2.0 ** -49 * (mag + tot + abs(case["delta"])))
-    if need_cang or need_tri:
+    if (need_cang or need_tri) and case["kind"] == "fgrid":
+        prepare_fgrid(case, P, need_cang, need_tri)
+    elif need_cang or need_tri:
         if grid:
             rk = case["rk"]
             P["pi"] = Fraction(8)
@@ -142,6 +148,36 @@ def prepare(case):
         if hits and not realised:
             P["sl"] = TINY
     return P
+
+
+def prepare_fgrid(case, P, need_cang, need_tri):
+    """float-exact angle grid: the model gets the float angles of evo's own angle primitives as exact
+    rationals (radians, pi = numpy.pi). evo's float running sums / band limits equal the model's exact
+    ones whenever they are exactly representable, which is verified here (the generator arranges for
+    it: identity poses mixed with one rotation whose float angle has >= 5 trailing zero bits)."""
+    assert not (case.get("deg") or case.get("unit") == "deg")
+    n = P["n"]
+    P["pi"] = frac(np.pi)
+    poses = build_poses(case)
+    exact = True
+    if need_cang:
+        cf = evo_consec_angles(poses)
+        P["cang"] = [frac(x) for x in cf]
+        for s in range(len(cf)):
+            sf, su = 0.0, Fraction(0)
+            for e in range(s, len(cf)):
+                sf += cf[e]
+                su += P["cang"][e]
+                exact = exact and frac(sf) == su
+    d, t = evo_float_thresholds(case)
+    if case["fn"] == "delta":
+        exact = exact and frac(t) == frac(case["delta"]) * frac(case["t"])
+    if need_tri:
+        for i in range(n - 1):
+            P["tri"] += [frac(float(x)) for x in evo_pair_angles(poses, i)]
+        exact = exact and frac(d - t) == frac(d) - frac(t) and frac(d + t) == frac(d) + frac(t)
+    P["fexact"] = exact
+    P["sl"] = Fraction(0) if exact else TINY
 
 
 def evo_float_thresholds(case):
@@ -314,6 +350,14 @@ def judge(ctx, case, P, impl, outs):
         ctx.count("branch", key + ":pairs")
     if margin is not None and margin == 0 and comparable:
         ctx.count("branch", key + ":threshold-hit-exactly")
+    if case["kind"] == "fgrid":
+        k2 = "all" if allp else "consec"
+        if not P["fexact"]:
+            ctx.count("branch", "angle-float-exact-grid:sums-not-exact(margin-filtered):" + k2)
+        elif margin == 0:
+            ctx.count("branch", "angle-float-exact-grid:threshold-hit-exactly-compared:" + k2)
+        else:
+            ctx.count("branch", "angle-float-exact-grid:no-exact-hit-compared:" + k2)
     if P.get("hits"):
         ctx.count("branch", "angle-threshold-hit-in-units:" + ("realised-in-floats" if P["realised"] else "not-realised-skipped"))
     npairs_possible = P["n"] * (P["n"] - 1) // 2
@@ -583,6 +627,91 @@ def snap_angle_delta(r, case):
     return case
 
 
+def trailing_zero_bits(a):
+    m, _ = math.frexp(a)
+    k = int(m * 2 ** 53)
+    return (k & -k).bit_length() - 1 if k else 99
+
+
+def exact_rotations(r, count, bits=5):
+    """rotation vectors whose angle, as evo's so3_log_angle computes it from / to the identity, is a
+    float with >= `bits` trailing zero mantissa bits: sums k*a (k < 2^bits) are then exact in floats"""
+    from evo.core import lie_algebra as lie
+    out, I = [], np.eye(3)
+    while len(out) < count:
+        ax = np.eye(3)[r.randint(0, 2)] if r.random() < 0.5 else np.array([r.gauss(0, 1) for _ in range(3)])
+        ax = ax / float(np.sqrt(ax @ ax))
+        v = [float(x) for x in r.uniform(0.05, 1.0) * ax]
+        R = rodrigues(v)
+        a = lie.so3_log_angle(lie.relative_so3(I, R))
+        b = lie.so3_log_angle(lie.relative_so3(R, I))
+        if a == b and trailing_zero_bits(a) >= bits and lie.so3_log_angle(lie.relative_so3(R, R)) == 0.0:
+            out.append((v, a))
+    return out
+
+
+def fgrid_cases(ctx, r, L, INC):
+    """second exact angle grid (float-exact): see prepare_fgrid"""
+    th = ctx.thorough
+    rots = exact_rotations(r, 6 if not th else 20)
+    zero = [0.0, 0.0, 0.0]
+
+    def mk(rvs, fn_mode, allp, d, t):
+        n = len(rvs)
+        pos = grid_positions(r, [r.choice(L) for _ in range(n - 1)]) if r.random() < 0.3 else [zero] * n
+        c = {"kind": "fgrid", "pos": pos, "rv": rvs, "all": allp, "delta": float(d)}
+        if fn_mode == "angle":
+            c.update({"fn": "angle", "deg": False, "t": float(t)})
+        else:
+            c.update({"fn": "delta", "unit": "rad", "t": float(t)})
+        return c
+    # consecutive: poses are I or R, exhaustive for 2..7 poses; thresholds k*a/2 (hit exactly for even k)
+    for n in range(2, 8 if not th else 10):
+        for bits in seqs([0, 1], n):
+            v, a = r.choice(rots)
+            rvs = [v if b else zero for b in bits]
+            steps = sum(1 for x, y in zip(bits, bits[1:]) if x != y)
+            ks = list(range(1, 2 * steps + 3))
+            nk = 3 if not th else 5
+            for k in (ks if len(ks) <= nk else r.sample(ks, nk)):
+                d = k * (a / 2)
+                if d > np.pi:
+                    continue
+                if r.random() < 0.75:
+                    yield mk(rvs, "angle", False, d, 0.0)
+                else:
+                    yield mk(rvs, "delta", False, d, r.choice([0.0, 0.5, 0.1]))
+                if r.random() < 0.5:
+                    tol = r.choice([0.0, 0.0, a / 2, a])
+                    if r.random() < 0.6:
+                        yield mk(rvs, "angle", True, d, tol)
+                    else:
+                        yield mk(rvs, "delta", True, d, r.choice([0.0, 0.5, 1.0]))
+    # two different rotations (transitions R1 -> R2 have a full-mantissa angle: kept only if sums stay exact)
+    for _ in range(150 if not th else 1500):
+        n = r.randint(3, 8)
+        (v1, a1), (v2, a2) = r.sample(rots, 2)
+        rvs = [r.choice([zero, zero, v1, v2]) for _ in range(n)]
+        d = r.choice([a1, a2, a1 + a2, 2 * a1, a1 / 2, 2 * a1 + a2])
+        if d <= np.pi:
+            yield mk(rvs, "angle", r.random() < 0.3, d, 0.0)
+    # all-pairs on the pi/8 grid: no sums involved, delta snapped onto the float angle of one pair
+    for _ in range(200 if not th else 2000):
+        n = r.randint(2, 8)
+        rk = [r.randint(0, 15)]
+        for _ in range(n - 1):
+            rk.append(rk[-1] + r.choice(INC))
+        c = {"kind": "fgrid", "pos": [zero] * n, "rk": rk, "axis": r.randint(0, 2), "all": True}
+        poses = build_poses(c)
+        i = r.randint(0, n - 2)
+        d = float(r.choice(list(evo_pair_angles(poses, i))))
+        if r.random() < 0.6:
+            c.update({"fn": "angle", "deg": False, "delta": d, "t": r.choice([0.0, 0.0, d / 2])})
+        else:
+            c.update({"fn": "delta", "unit": "rad", "delta": d, "t": r.choice([0.0, 0.5, 1.0])})
+        yield c
+
+
 def gen_cases(ctx):
     r = ctx.rng
     th = ctx.thorough
@@ -665,6 +794,7 @@ def gen_cases(ctx):
         n = r.randint(5, 8)
         incs = [r.choice(INC + [1, 1, 2]) for _ in range(n - 1)]
         yield from angle_cases(incs, half_grid(r, 9, 2))
+    yield from fgrid_cases(ctx, r, L, INC)
     for u in ("other",):
         yield {"kind": "grid", "fn": "delta", "unit": u, "all": False, "pos": grid_positions(r, [1, 1, 1]), "delta": 1.0, "t": 0.1}
     # ---- random stream
